@@ -328,10 +328,15 @@ func (e *Env) clientOps(i int, tn string, c *cli, ops []string) {
 				rr.FinalErr = es(err)
 			}
 			e.rec.ev(tn, op, es(err))
-		case op[0] == 'S':
+		case op[0] == 'S' || op[0] == 'E':
 			seq, _ := strconv.Atoi(op[1:])
-			rr.SendAttempt = append(rr.SendAttempt, tag(i, "c", seq))
 			req := newMsg(i, "c", seq)
+			if op[0] == 'E' {
+				req = &Msg{} // the empty message: zero bytes on the wire
+				rr.SendAttempt = append(rr.SendAttempt, "")
+			} else {
+				rr.SendAttempt = append(rr.SendAttempt, tag(i, "c", seq))
+			}
 			own := e.own(req, tag(i, "c", seq), "SendMsg")
 			e.where("client:SendMsg")
 			err := c.stream.SendMsg(req)
@@ -467,9 +472,18 @@ func (e *Env) monitorBackpressure(i int, side string) {
 		if rr.CliSendDone > rr.SrvRecvStarted+1 {
 			rr.Monitor = append(rr.Monitor, fmt.Sprintf("backpressure:client completed %d sends, handler started %d receives", rr.CliSendDone, rr.SrvRecvStarted))
 		}
-	} else if rr.SrvSendDone > rr.CliRecvStarted+1 {
+	} else if allowed := rr.CliRecvStarted + 1; rr.SrvSendDone > allowed+e.probeAllowance(i) {
 		rr.Monitor = append(rr.Monitor, fmt.Sprintf("backpressure:handler completed %d sends, client started %d receives", rr.SrvSendDone, rr.CliRecvStarted))
 	}
+}
+
+// probeAllowance: on a single-response method every receive also takes the
+// frame it probes for a (forbidden) second response, still a constant.
+func (e *Env) probeAllowance(i int) int {
+	if !e.sc.RPCs[i].serverStreams() {
+		return 1
+	}
+	return 0
 }
 
 // setup builds the channel and service for the scenario.
